@@ -188,8 +188,12 @@ class TBRMMDesignParameters:
     test_ok = specified and testf(value, bound)
     if not test_ok:
       raise ValueError('{} must be {} {}'.format(attr, op, bound))
-    if isinstance(bound, int) and value % 1 != 0:
-      raise ValueError('{} must be an integer'.format(attr))
+    if isinstance(bound, int):
+      if value % 1 != 0:
+        raise ValueError('{} must be an integer'.format(attr))
+      # Integer-valued floats (e.g., 7.0) are stored as integers so that they
+      # can be used as sizes and slice bounds.
+      setattr(self, attr, int(value))
 
   def _test_value_within_bounds(self, lower, op1, attr, op2, upper):
     """Test that the value of the attribute is within the given bounds.
@@ -266,10 +270,11 @@ class TBRMMDesignParameters:
         if not range_ok:
           template = 'Lower bound of {} must be {} upper bound'
           raise ValueError(template.format(attr, op3))
-        elif (isinstance(lower, int) and
-              (lower_range % 1 != 0 or
-               upper_range % 1 != 0)):
-          raise ValueError('{} must be integers'.format(attr))
+        elif isinstance(lower, int):
+          if lower_range % 1 != 0 or upper_range % 1 != 0:
+            raise ValueError('{} must be integers'.format(attr))
+          # Store integer-valued floats as integers (see above).
+          setattr(self, attr, (int(lower_range), int(upper_range)))
       else:
         inv_op1 = self. _inverse_op[op1]
         if upper is float('inf'):
